@@ -9,6 +9,7 @@ PART = {
                  "Carquet.Properties.C08.C08_plain_byte_array_slices_in_input"],
     components=["c04"],
     shards={"c04": 14},
+    timeout=9000,
     fidelity={"reader bounds arithmetic (open paths, page loads)": "Impl.Reader with access reporting (reader part)"},
     rule="c04: 6 (thorough 40) base files over 5 codecs; per base 60 (400) structure-aware mutations: footer fields through "
          "carquet's own thrift structs (counts, offsets, sizes, types, codecs, child counts, repetition), page-header fields "
